@@ -300,3 +300,127 @@ package secp256k1
 //@   panics !p.isValid
 //@   ensures result.isValid && abs(result) == abs(p)
 //@   fresh result
+//@
+//@ func maybeYY
+//@   props C06
+//@   ensures val(result) == val(x)*val(x)*val(x) + 7
+//@   fresh result
+//@
+//@ func xyOnCurve
+//@   props C06
+//@   ensures result == ite(onaff(val(x), val(y)), 1, 0)
+//@
+//@ func NewPointFromCoords
+//@   props C06 C18
+//@   split case os2ip(xBytes) < P
+//@   split case os2ip(yBytes) < P
+//@   split case onaff(fp(os2ip(xBytes)), fp(os2ip(yBytes)))
+//@   ensures (os2ip(xBytes) < P && os2ip(yBytes) < P && onaff(fp(os2ip(xBytes)), fp(os2ip(yBytes)))) ==> result1 == nil && result0.isValid && abs(result0) == aff(fp(os2ip(xBytes)), fp(os2ip(yBytes)))
+//@   ensures !(os2ip(xBytes) < P && os2ip(yBytes) < P && onaff(fp(os2ip(xBytes)), fp(os2ip(yBytes)))) ==> result0 == nil && result1 != nil
+//@   using aff_coords(fp(os2ip(xBytes)), fp(os2ip(yBytes)))
+//@   fresh result0
+//@
+//@ func (*Point).getUncompressedBytes
+//@   props C06
+//@   panics !v.isValid
+//@   ensures result == dst[0:ite(abs(v) == O, 1, 65)]
+//@   ensures abs(v) == O ==> dst[0] == 0
+//@   ensures abs(v) != O ==> dst[0] == 4 && os2ip(dst[1:33]) == lift(affx(abs(v))) && os2ip(dst[33:65]) == lift(affy(abs(v)))
+//@   modifies dst
+//@
+//@ func (*Point).UncompressedBytes
+//@   props C06 C18
+//@   panics !v.isValid
+//@   split case abs(v) == O
+//@   ensures abs(v) == O ==> len(result) == 1 && result[0] == 0
+//@   ensures abs(v) != O ==> len(result) == 65 && result[0] == 4 && os2ip(result[1:33]) == lift(affx(abs(v))) && os2ip(result[33:65]) == lift(affy(abs(v)))
+//@   fresh result
+//@
+//@ func (*Point).getCompressedBytes
+//@   props C06
+//@   panics !v.isValid
+//@   ensures result == dst[0:ite(abs(v) == O, 1, 33)]
+//@   ensures abs(v) == O ==> dst[0] == 0
+//@   ensures abs(v) != O ==> dst[0] == 2 + lift(affy(abs(v))) % 2 && os2ip(dst[1:33]) == lift(affx(abs(v)))
+//@   modifies dst
+//@
+//@ func (*Point).CompressedBytes
+//@   props C06 C18
+//@   panics !v.isValid
+//@   split case abs(v) == O
+//@   ensures abs(v) == O ==> len(result) == 1 && result[0] == 0
+//@   ensures abs(v) != O ==> len(result) == 33 && result[0] == 2 + lift(affy(abs(v))) % 2 && os2ip(result[1:33]) == lift(affx(abs(v)))
+//@   fresh result
+//@
+//@ func (*Point).getXBytes
+//@   props C06
+//@   requires v.isValid && abs(v) != O
+//@   ensures result1 == nil && len(result0) == 32 && os2ip(dst) == lift(affx(abs(v))) && result0 == dst[0:32]
+//@   modifies dst
+//@
+//@ func (*Point).XBytes
+//@   props C06 C18
+//@   panics !v.isValid
+//@   split case abs(v) == O
+//@   ensures abs(v) == O ==> result0 == nil && result1 != nil
+//@   ensures abs(v) != O ==> result1 == nil && len(result0) == 32 && os2ip(result0) == lift(affx(abs(v)))
+//@   fresh result0
+//@
+//@ func SplitUncompressedPoint
+//@   props C06
+//@   panics len(ptBytes) != 65
+//@   ensures result0 == ptBytes[1:33] && result1 == ptBytes[64] % 2
+//@
+//@ func (*Point).SetCompressedBytes
+//@   props C06 C18
+//@   split case len(src) == 33
+//@   split case len(src) == 33 && (src[0] == 2 || src[0] == 3)
+//@   split case len(src) == 33 && os2ip(src[1:33]) < P
+//@   split case len(src) == 33 && issq(pow(fp(os2ip(src[1:33])), 3) + 7)
+//@   ensures (len(src) == 33 && (src[0] == 2 || src[0] == 3) && os2ip(src[1:33]) < P && issq(pow(fp(os2ip(src[1:33])), 3) + 7)) ==> result1 == nil && result0 == v && v.isValid && val(v.z) == 1 && val(v.x) == fp(os2ip(src[1:33])) && onaff(val(v.x), val(v.y)) && lift(val(v.y)) % 2 == src[0] % 2 && abs(v) == aff(val(v.x), val(v.y))
+//@   ensures !(len(src) == 33 && (src[0] == 2 || src[0] == 3) && os2ip(src[1:33]) < P && issq(pow(fp(os2ip(src[1:33])), 3) + 7)) ==> result0 == nil && result1 != nil && unchanged(*v)
+//@   using aff_coords(val(v.x), val(v.y))
+//@   using neg_parity_P(val(y))
+//@   using mul_zero_P(val(y), val(y))
+//@   using no_point_with_y_zero(fp(os2ip(src[1:33])))
+//@   modifies *v
+//@
+//@ func (*Point).SetUncompressedBytes
+//@   props C06 C18
+//@   split case len(src) == 65
+//@   split case len(src) == 65 && src[0] == 4
+//@   split case len(src) == 65 && os2ip(src[1:33]) < P
+//@   split case len(src) == 65 && os2ip(src[33:65]) < P
+//@   split case len(src) == 65 && onaff(fp(os2ip(src[1:33])), fp(os2ip(src[33:65])))
+//@   ensures (len(src) == 65 && src[0] == 4 && os2ip(src[1:33]) < P && os2ip(src[33:65]) < P && onaff(fp(os2ip(src[1:33])), fp(os2ip(src[33:65])))) ==> result1 == nil && result0 == v && v.isValid && val(v.z) == 1 && val(v.x) == fp(os2ip(src[1:33])) && val(v.y) == fp(os2ip(src[33:65])) && abs(v) == aff(val(v.x), val(v.y))
+//@   ensures !(len(src) == 65 && src[0] == 4 && os2ip(src[1:33]) < P && os2ip(src[33:65]) < P && onaff(fp(os2ip(src[1:33])), fp(os2ip(src[33:65])))) ==> result0 == nil && result1 != nil && unchanged(*v)
+//@   using aff_coords(val(v.x), val(v.y))
+//@   modifies *v
+//@
+//@ func (*Point).SetBytes
+//@   props C06 C18
+//@   split case len(src) == 1
+//@   split case len(src) == 1 && src[0] == 0
+//@   split case len(src) == 33
+//@   split case len(src) == 33 && (src[0] == 2 || src[0] == 3) && os2ip(src[1:33]) < P && issq(pow(fp(os2ip(src[1:33])), 3) + 7)
+//@   split case len(src) == 65
+//@   split case len(src) == 65 && src[0] == 4 && os2ip(src[1:33]) < P && os2ip(src[33:65]) < P && onaff(fp(os2ip(src[1:33])), fp(os2ip(src[33:65])))
+//@   ensures (len(src) == 1 && src[0] == 0) ==> result1 == nil && result0 == v && v.isValid && abs(v) == O
+//@   ensures (len(src) == 33 && (src[0] == 2 || src[0] == 3) && os2ip(src[1:33]) < P && issq(pow(fp(os2ip(src[1:33])), 3) + 7)) ==> result1 == nil && result0 == v && v.isValid && val(v.z) == 1 && val(v.x) == fp(os2ip(src[1:33])) && onaff(val(v.x), val(v.y)) && lift(val(v.y)) % 2 == src[0] % 2 && abs(v) == aff(val(v.x), val(v.y))
+//@   ensures (len(src) == 65 && src[0] == 4 && os2ip(src[1:33]) < P && os2ip(src[33:65]) < P && onaff(fp(os2ip(src[1:33])), fp(os2ip(src[33:65])))) ==> result1 == nil && result0 == v && v.isValid && val(v.z) == 1 && val(v.x) == fp(os2ip(src[1:33])) && val(v.y) == fp(os2ip(src[33:65])) && abs(v) == aff(val(v.x), val(v.y))
+//@   ensures !((len(src) == 1 && src[0] == 0) || (len(src) == 33 && (src[0] == 2 || src[0] == 3) && os2ip(src[1:33]) < P && issq(pow(fp(os2ip(src[1:33])), 3) + 7)) || (len(src) == 65 && src[0] == 4 && os2ip(src[1:33]) < P && os2ip(src[33:65]) < P && onaff(fp(os2ip(src[1:33])), fp(os2ip(src[33:65]))))) ==> result0 == nil && result1 != nil && unchanged(*v)
+//@   modifies *v
+//@
+//@ func NewPointFromBytes
+//@   props C06 C18
+//@   split case len(src) == 1
+//@   split case len(src) == 1 && src[0] == 0
+//@   split case len(src) == 33
+//@   split case len(src) == 33 && (src[0] == 2 || src[0] == 3) && os2ip(src[1:33]) < P && issq(pow(fp(os2ip(src[1:33])), 3) + 7)
+//@   split case len(src) == 65
+//@   split case len(src) == 65 && src[0] == 4 && os2ip(src[1:33]) < P && os2ip(src[33:65]) < P && onaff(fp(os2ip(src[1:33])), fp(os2ip(src[33:65])))
+//@   ensures (len(src) == 1 && src[0] == 0) ==> result1 == nil && result0.isValid && abs(result0) == O
+//@   ensures (len(src) == 33 && (src[0] == 2 || src[0] == 3) && os2ip(src[1:33]) < P && issq(pow(fp(os2ip(src[1:33])), 3) + 7)) ==> result1 == nil && result0.isValid && val(result0.z) == 1 && val(result0.x) == fp(os2ip(src[1:33])) && onaff(val(result0.x), val(result0.y)) && lift(val(result0.y)) % 2 == src[0] % 2 && abs(result0) == aff(val(result0.x), val(result0.y))
+//@   ensures (len(src) == 65 && src[0] == 4 && os2ip(src[1:33]) < P && os2ip(src[33:65]) < P && onaff(fp(os2ip(src[1:33])), fp(os2ip(src[33:65])))) ==> result1 == nil && result0.isValid && val(result0.z) == 1 && val(result0.x) == fp(os2ip(src[1:33])) && val(result0.y) == fp(os2ip(src[33:65])) && abs(result0) == aff(val(result0.x), val(result0.y))
+//@   ensures !((len(src) == 1 && src[0] == 0) || (len(src) == 33 && (src[0] == 2 || src[0] == 3) && os2ip(src[1:33]) < P && issq(pow(fp(os2ip(src[1:33])), 3) + 7)) || (len(src) == 65 && src[0] == 4 && os2ip(src[1:33]) < P && os2ip(src[33:65]) < P && onaff(fp(os2ip(src[1:33])), fp(os2ip(src[33:65]))))) ==> result0 == nil && result1 != nil
+//@   fresh result0
